@@ -136,6 +136,72 @@ class Lin:
         const = fl[1] - fr[1] - (1 if op == ">" else 0)
         return canon({t: k for t, k in terms.items() if k}, const)
 
+    def implied(self, cond, truth, use=None, depth=0):
+        """canonical inequalities that hold when `cond` is taken with `truth`: conjuncts of &&, disjuncts of a false ||,
+        and - for a bool local that has one defining expression whose operands are unchanged since - what that
+        expression implies (flag variables)"""
+        c = strip_casts(cond)
+        while c is not None and (c["k"] == "ParenExpr" or (c["k"] == "UnaryOperator" and c.get("op") == "!")):
+            if c["k"] == "UnaryOperator":
+                truth = not truth
+            c = strip_casts(kids(c)[0])
+        if c is None or depth > 4:
+            return []
+        if c["k"] == "BinaryOperator" and c.get("op") in ("&&", "||"):
+            if (c["op"] == "&&") == truth:
+                return self.implied(kids(c)[0], truth, use, depth + 1) + self.implied(kids(c)[1], truth, use, depth + 1)
+            return []
+        d = ref_of(c)
+        if d is not None and d in self.decls and (self.decls[d].get("ty") or "").replace("const ", "") == "bool" and truth:
+            defs = []
+            v = self.decls[d]
+            if kids(v) and kids(v)[0] is not None and strip_casts(kids(v)[0])["k"] != "CXXBoolLiteralExpr":
+                defs.append((v, kids(v)[0]))
+            for w in self.writes.get(d, []):
+                b = match.binop(w, ("=",))
+                if not b:
+                    return []
+                if strip_casts(b[2])["k"] != "CXXBoolLiteralExpr":
+                    defs.append((w, b[2]))
+                elif const_int(b[2]) != 0:
+                    return []           # set to true somewhere else: the flag tells nothing
+            if len(defs) != 1:
+                return []
+            node, expr = defs[0]
+            u = use if use is not None else c
+            if not self._unchanged(node, expr, u, skip=d):
+                return []
+            return [a for a in self.implied(expr, True, node, depth + 1)]
+        a = self.atom(c, truth, use)
+        return [a] if a is not None else []
+
+    def _unchanged(self, node, expr, use, skip=None):
+        if self.g is None:
+            return False
+        pd, pu = self.g.pos_deep(node), self.g.pos_deep(use)
+        if pd is None or pu is None:
+            return False
+        for y in walk(expr):
+            if y["k"] == "DeclRefExpr" and y["ref"]["id"] != skip:
+                for w in self.writes.get(y["ref"]["id"], []):
+                    pw = self.g.pos_deep(w)
+                    if pw is None:
+                        return False
+                    if self.g.path_between_avoiding(pd, pw, [pd]) is not None and self.g.path_between_avoiding(pw, pu, [pd]) is not None:
+                        return False
+        return True
+
+    def opaque(self, cond):
+        """the condition is not (a combination of) integer inequalities this engine reads: a flag, a call, a pointer"""
+        c = strip_casts(cond)
+        while c is not None and (c["k"] == "ParenExpr" or (c["k"] == "UnaryOperator" and c.get("op") == "!")):
+            c = strip_casts(kids(c)[0])
+        if c is None:
+            return True
+        if c["k"] == "BinaryOperator" and c.get("op") in ("&&", "||"):
+            return self.opaque(kids(c)[0]) or self.opaque(kids(c)[1])
+        return match.binop(c, ("<", ">", "<=", ">=", "==", "!=")) is None
+
     def req(self, big, small, strict, use=None):
         """canonical form of  small < big  (strict) or small <= big"""
         fb, fs = self.form(big, use), self.form(small, use)
